@@ -3,6 +3,7 @@ package main
 import (
 	"fmt"
 	"go/ast"
+	"go/constant"
 	"go/token"
 	"go/types"
 	"sort"
@@ -643,6 +644,10 @@ func indexDischarged(w *World, info *types.Info, f *FuncInfo, ix *ast.IndexExpr,
 			// position < len(input) and readPosition = position+1 <= len(input): the upper bound holds for k >= 0.
 			// Lower bound: the constructor has called readChar, so readPosition >= 1 and position >= 0; anything
 			// beyond that (readPosition-2, position-1, ...) needs a dominating test of the same field.
+			// ... also when the index goes through a local: prev := readPosition - 2; if prev < 0 { prev = readPosition - 1 }
+			if _, isLocal := unparen(ix.Index).(*ast.Ident); isLocal && callersRequireNonNul(w, m, f) && relativeReadsBounded(w, m, f) {
+				return "relative read behind the cursor through a local: every value it can hold is the cursor minus an offset within the field's known lower bound, or was found non-negative on its way; every caller is inside a loop whose condition excludes NUL"
+			}
 			if be, ok := unparen(ix.Index).(*ast.BinaryExpr); ok && be.Op == token.SUB {
 				if k, ok := constInt(info, be.Y); ok && k >= 1 {
 					_, fld := fieldOf(info, be.X)
@@ -1141,4 +1146,118 @@ func linearPrintersRule(r *Run, rule string) {
 			}
 		}
 	}
+}
+
+// relativeReadsBounded: every index at which f reads the input is, on every way the value can be formed
+// (through phis), <cursor field> - k with k >= 1 where either k is within the field's known lower bound
+// (read position >= 1, position >= 0) or the value was found >= 0 before it reached the index.
+func relativeReadsBounded(w *World, m *lexerModel, f *FuncInfo) bool {
+	fn := w.SSAFunc(f)
+	if fn == nil {
+		return false
+	}
+	fieldBase := func(v ssa.Value) int64 {
+		ld, ok := v.(*ssa.UnOp)
+		if !ok || ld.Op != token.MUL {
+			return -1
+		}
+		fa, ok := ld.X.(*ssa.FieldAddr)
+		if !ok {
+			return -1
+		}
+		pt, ok := fa.X.Type().Underlying().(*types.Pointer)
+		if !ok {
+			return -1
+		}
+		st, ok := pt.Elem().Underlying().(*types.Struct)
+		if !ok || fa.Field >= st.NumFields() {
+			return -1
+		}
+		fld := st.Field(fa.Field)
+		switch {
+		case fld == m.aheadField():
+			return 1
+		case isPosField(m, fld):
+			return 0
+		}
+		return -1
+	}
+	nonNegAt := func(v ssa.Value, facts []edgeFact) bool {
+		for _, fct := range facts {
+			cond, truth := fct.cond, fct.truth
+			for {
+				u, ok := cond.(*ssa.UnOp)
+				if !ok || u.Op != token.NOT {
+					break
+				}
+				cond, truth = u.X, !truth
+			}
+			bo, ok := cond.(*ssa.BinOp)
+			if !ok || bo.X != v {
+				continue
+			}
+			c, isC := bo.Y.(*ssa.Const)
+			if !isC || c.Value == nil || c.Value.Kind() != constant.Int {
+				continue
+			}
+			k, _ := constant.Int64Val(c.Value)
+			if (bo.Op == token.LSS && !truth && k >= 0) || (bo.Op == token.GEQ && truth && k >= 0) || (bo.Op == token.GTR && truth && k >= -1) || (bo.Op == token.LEQ && !truth && k >= -1) {
+				return true
+			}
+		}
+		return false
+	}
+	var okValue func(v ssa.Value, at *ssa.BasicBlock, extra []edgeFact, depth int) bool
+	okValue = func(v ssa.Value, at *ssa.BasicBlock, extra []edgeFact, depth int) bool {
+		if depth > 4 {
+			return false
+		}
+		switch x := v.(type) {
+		case *ssa.Phi:
+			for i, e := range x.Edges {
+				pred := x.Block().Preds[i]
+				if !okValue(e, pred, edgeFacts(pred, x.Block()), depth+1) {
+					return false
+				}
+			}
+			return len(x.Edges) > 0
+		case *ssa.BinOp:
+			c, isC := x.Y.(*ssa.Const)
+			if x.Op != token.SUB || !isC || c.Value == nil || c.Value.Kind() != constant.Int {
+				return false
+			}
+			k, _ := constant.Int64Val(c.Value)
+			base := fieldBase(x.X)
+			if base < 0 || k < 1 {
+				return false
+			}
+			if k <= base {
+				return true
+			}
+			return nonNegAt(v, append(append([]edgeFact(nil), dominatingFacts(at)...), extra...))
+		}
+		return false
+	}
+	n := 0
+	for _, b := range fn.Blocks {
+		for _, ins := range b.Instrs {
+			var idx ssa.Value
+			switch x := ins.(type) {
+			case *ssa.Lookup:
+				if bt, isB := x.X.Type().Underlying().(*types.Basic); isB && bt.Info()&types.IsString != 0 {
+					idx = x.Index
+				}
+			case *ssa.Index:
+				idx = x.Index
+			}
+			if idx == nil {
+				continue
+			}
+			n++
+			if !okValue(idx, b, nil, 0) {
+				return false
+			}
+		}
+	}
+	return n > 0
 }
